@@ -1,10 +1,12 @@
 #!/bin/bash
 # Development aid: apply a seeded change to /repo, run the named checks, undo the change.
+# Evidence files and replays written by these runs are discarded (evidence describes the unchanged tree only).
 # usage: lib/seedtest.sh <patch> <tier> <check id>...
 P=$1; TIER=$2; shift 2
 [ -z "$(git -C /repo status --porcelain)" ] || { echo "/repo not clean"; exit 2; }
+SAVE=$(mktemp -d /tmp/evsave.XXXXXX); cp -a /verif/evidence/. $SAVE/
 git -C /repo apply "$P" || exit 2
-trap 'git -C /repo checkout -- .' EXIT
+trap 'git -C /repo checkout -- .; cp -a $SAVE/. /verif/evidence/; find $SAVE -delete' EXIT
 for id in "$@"; do
   /verif/check $id --tier $TIER 2>&1 | grep -E 'VIOLATION|KNOWN-FINDING|^\[check\]|Infra|signature|NOTE' | head -8
 done
